@@ -9,4 +9,5 @@ pub mod lex;
 pub mod parse;
 pub mod print;
 pub mod schema;
+pub mod schema_validate;
 pub mod validate;
